@@ -32,6 +32,10 @@ Do(e) == ConnLegal(cs, e) /\ cs' = ConnStep(cs, e) /\ hist' = Append(hist, e) /\
 \* (CloseAfter > 0 only in the generator configuration: conversations are not shut down before they did some work)
 MNext == Len(hist) < MaxLen /\ \E e \in Universe : (e.name = "Connection.Close" => Len(hist) >= CloseAfter) /\ Do(e)
 MSpec == MInit /\ [][MNext]_cvars2
+\* liveness: a shutdown that was started completes (weak fairness of the peer's CloseOk), unless the bound cut the run
+CloseOkStep == Len(hist) < MaxLen /\ \E d \in Dirs : Do(Ev(d, 0, "method", "Connection.CloseOk", 0, 0, 0))
+MSpecFair == MSpec /\ WF_cvars2(CloseOkStep)
+ShutdownCompletes == (cs.phase = "closing") ~> (cs.phase = "closed" \/ Len(hist) = MaxLen)
 
 View == << cs, seen >>
 
